@@ -55,7 +55,33 @@ def run(ck: Check, repo: Repo) -> None:
         return a.kind == "idx" and a.name.strip() == "0" and bool(a.sub) and mentions(tb, a.sub[0], derives_from_window)
 
     def is_elem(a: Atom) -> bool:
+        if a.kind == "idx" and len(a.sub) == 2 and index_loops:
+            # index loop: `<window>[t]` with t computed from the loop index is the element at position t; once the position of the element
+            # whose reward is added is known, only that element is "the current element"
+            for k, pos in index_loops.values():
+                if mentions(tb, a.sub[1], lambda b, k_=k: b.key == k_) and taken_from_window(a.sub[0]):
+                    return pos is None or (a.sub[1] - pos).const_value() == 0
+            return False
+        if a.key in index_atoms:
+            return False  # the loop index itself is a number, not an element (its range mentions len(window))
         return (a.kind in ("iter",) or (a.kind == "idx" and a.name == "elem")) and bool(a.sub) and mentions(tb, a.sub[0], derives_from_window)
+
+    def taken_from_window(p: Poly, _seen: Optional[Set[str]] = None) -> bool:
+        """p is the window itself or a sequence copied / sliced from it — not a number computed from it (len, range) and not a container
+        that is merely indexed with something computed from it."""
+        _seen = _seen if _seen is not None else set()
+        for k in sorted(p.atoms()):
+            a = tb.atoms.get(k)
+            if a is None or k in _seen:
+                continue
+            _seen.add(k)
+            if derives_from_window(a):
+                return True
+            if a.kind == "call" and a.name in ("len", "range"):
+                continue
+            if any(taken_from_window(x, _seen) for x in (a.sub[:1] if a.kind == "idx" else a.sub)):
+                return True
+        return False
 
     def field_of(pred, key_attr: str):
         def f(a: Atom) -> bool:
@@ -63,6 +89,8 @@ def run(ck: Check, repo: Repo) -> None:
         return f
 
     _rec_memo = {}
+    index_loops = {}
+    index_atoms: Set[str] = set()
 
     def is_done_rec(a: Atom) -> bool:
         """A loop-carried local that holds a done flag: some definition of it is computed from a window element's done field
@@ -83,6 +111,29 @@ def run(ck: Check, repo: Repo) -> None:
     loops = [n for n in cfg.live_nodes() if n.kind == "for" and mentions(tb, tb.term(n.ast.iter, n), derives_from_window)]
     if not loops:
         raise AnalysisError("_get_n_step_info: no loop over the window found")
+    # index loops `for k in range(.., len(window))`: loop id -> (key of the index atom, position term of the element whose reward is read)
+    for L in loops:
+        if isinstance(L.ast.iter, ast.Call) and call_name(L.ast.iter) == "range" and isinstance(L.ast.target, ast.Name):
+            ka = single_atom(tb, tb._name_via(ast.Name(id=L.ast.target.id, ctx=ast.Load()), L, set()))
+            if ka is not None:
+                index_atoms.add(ka.key)
+                index_loops[L.id] = (ka.key, None)
+    for lid, (k, _) in sorted(index_loops.items()):
+        L = cfg.nodes[lid]
+        poss: List[Poly] = []
+        for n in (cfg.nodes[i] for i in _body_ids(cfg, L)):
+            for x in n.walk():
+                if isinstance(x, ast.Subscript) and isinstance(x.ctx, ast.Load):
+                    a = single_atom(tb, tb.term(x, n))
+                    if a is not None and a.kind == "idx" and a.name == f"attr:self.{reward_key}" and a.sub:
+                        el = single_atom(tb, a.sub[0])
+                        if el is not None and is_elem(el) and not any((el.sub[1] - q).const_value() == 0 for q in poss):
+                            poss.append(el.sub[1])
+        if len(poss) > 1:
+            raise AnalysisError(f"_get_n_step_info: rewards of {len(poss)} different window positions are read in one iteration "
+                                f"({[q.key() for q in poss]}) — shape not recognised")
+        if poss:
+            index_loops[lid] = (k, poss[0])
 
     def reward_read(L: Node) -> Optional[Node]:
         ids = _body_ids(cfg, L)
@@ -205,6 +256,14 @@ def run(ck: Check, repo: Repo) -> None:
             cv = diff.const_value()
             ok = cv is not None and cv == (slice_lo - start)
             detail = f"exponent = counter + {cv}; element position = counter + {slice_lo - start} (slice start {slice_lo}, enumerate start {start})"
+        elif loop.id in index_loops and index_loops[loop.id][1] is not None:
+            # the element is read as <window>[position]: the exponent must be that very index term, and the first index of the range must
+            # address the second window element (position 0 is the base of the sum)
+            k, pos = index_loops[loop.id]
+            first = _range_first(loop.ast.iter)
+            p0 = pos.subst({k: Poly.const(first)}).const_value() if first is not None else None
+            ok = (e - pos).const_value() == 0 and p0 == 1
+            detail = f"exponent {e.key()}; element read at window position {pos.key()}; first position visited {p0}"
         ck.ob("C10.2", info, x, ok and single_atom(tb, base) is not None and single_atom(tb, base).name == "self.gamma",
               "reward of the element at window position p is discounted by self.gamma ** p", detail=detail)
         # the discounted quantity is the element's reward
@@ -369,6 +428,16 @@ def _enumerate_shape(loop: ast.For, cfg: Optional[CFG] = None, node: Optional[No
     return int(start), int(lo), counter
 
 
+def _range_first(it: ast.Call) -> Optional[int]:
+    """First value of `range(...)` with constant start and step 1 (None otherwise)."""
+    if it.keywords or not 1 <= len(it.args) <= 3 or (len(it.args) == 3 and const_value(it.args[2]) != 1):
+        return None
+    if len(it.args) == 1:
+        return 0
+    v = const_value(it.args[0])
+    return v if isinstance(v, int) and not isinstance(v, bool) else None
+
+
 def _parent_binop(n: Node, x: ast.AST) -> Optional[ast.AST]:
     for y in n.walk():
         if isinstance(y, ast.BinOp) and isinstance(y.op, ast.Mult) and (y.left is x or y.right is x):
@@ -382,34 +451,46 @@ def _alignment(ck: Check, repo: Repo, add: Fn, window: str) -> None:
               (isinstance(c.func, ast.Attribute) and c.func.attr == "add" and isinstance(c.func.value, ast.Call) and call_name(c.func.value) == "super")]
     stores = [s for s in stores if s is not None]
     ck.floor("C10.5", len(stores), 1, "store of the fused transition (super().add) in MultiStepReplayBuffer.add", fn=add)
-    rets = [n for n in cfg.live_nodes() if n.kind == "stmt" and isinstance(n.ast, ast.Return)]
-    implicit_none = [p for p in cfg.exit.pred if not (p.kind == "stmt" and isinstance(p.ast, ast.Return))]
-    for r in rets:
-        v = r.ast.value
-        is_none = v is None or (isinstance(v, ast.Constant) and v.value is None)
-        after_store = any(r.id in cfg.reachable_from(s) for s in stores)
-        if is_none:
-            ck.ob("C10.5", add, r.ast, not after_store, "a `None` return happens only on paths that stored nothing")
-        else:
-            oldest = isinstance(v, ast.Subscript) and dotted(v.value) == f"self.{window}" and const_value(v.slice) == 0
-            dominated = all(cfg.dominates(s, r) for s in stores)
-            ck.ob("C10.5", add, r.ast, oldest and after_store and dominated,
-                  "the 1-step transition returned is the oldest window element, and it is returned only after the fused one was stored",
-                  detail=f"returns {short(v, 60)}; store dominates return: {dominated}")
-    ck.ob("C10.5", add, add.node, not any(any(p.id in cfg.reachable_from(s) or p is s for s in stores) for p in implicit_none),
-          "no path stores a fused transition and then falls off the end (returning None)", construct="implicit return in add()")
-    # window append precedes everything; fill test compares len(window) with n_step
     apps = [cfg.node_of(c) for c in calls_in(add.node) if call_name(c) == f"self.{window}.append"]
+    app_ids = {a.id for a in apps if a is not None}
+    store_ids = {s.id for s in stores}
+    # paths are followed with correlated branches: two tests of the same single-definition local take the same outcome on one path
+    # (`full = ...; if full: store ...; return oldest if full else None` is the same function as the early-return form)
+    states, into_exit = _explore(cfg, store_ids)
+    rets = [n for n in cfg.live_nodes() if n.kind == "stmt" and isinstance(n.ast, ast.Return)]
+    for r in rets:
+        for v, key, want in _return_alternatives(cfg, r):
+            feas = [stored for nid, stored, dec in states if nid == r.id and (key is None or dict(dec).get(key, want) == want)]
+            is_none = v is None or (isinstance(v, ast.Constant) and v.value is None)
+            if is_none:
+                ck.ob("C10.5", add, r.ast, not any(feas), "a `None` return happens only on paths that stored nothing")
+            else:
+                v0, at0 = _thru(cfg, r, v)
+                base0 = _thru(cfg, at0, v0.value)[0] if isinstance(v0, ast.Subscript) else None
+                oldest = base0 is not None and dotted(base0) == f"self.{window}" and const_value(v0.slice) == 0 \
+                    and not (app_ids & cfg.reachable_from(at0))
+                dominated = bool(feas) and all(feas)
+                ck.ob("C10.5", add, r.ast, oldest and dominated,
+                      "the 1-step transition returned is the oldest window element, and it is returned only after the fused one was stored",
+                      detail=f"returns {short(v, 60)}; a store precedes the return on every feasible path: {dominated}")
+    ck.ob("C10.5", add, add.node, not any(stored for nid, stored in into_exit if not (cfg.nodes[nid].kind == "stmt" and isinstance(cfg.nodes[nid].ast, ast.Return))),
+          "no path stores a fused transition and then falls off the end (returning None)", construct="implicit return in add()")
+    # window append precedes everything; the store is guarded by len(window) >= n_step
     ck.ob("C10.5", add, add.node, bool(apps) and all(all(cfg.dominates(a, s) for s in stores) for a in apps if a),
           "the new transition enters the window before the fused transition is computed", construct="window append dominates store")
     tests = [n for n in cfg.live_nodes() if n.kind == "test" and f"self.{window}" in ast.unparse(n.ast) and "n_step" in ast.unparse(n.ast)]
-    ok = False
-    for t in tests:
-        c = t.ast
-        if isinstance(c, ast.Compare) and len(c.ops) == 1 and isinstance(c.ops[0], ast.Lt) and "len" in ast.unparse(c.left) and dotted(c.comparators[0]) == "self.n_step":
-            reg_true = cfg._region([t.true_succ], t) if t.true_succ else set()
-            ok = all(s.id not in reg_true for s in stores)
-    ck.ob("C10.5", add, tests[0].ast if tests else add.node, ok,
+    ok = bool(stores)
+    shown = None
+    for s in stores:
+        g_ok = False
+        for g, pol, t in cfg.guards_at(s):
+            c, at = _thru(cfg, t, g, negations=True)
+            # the length compared is the one the store sees: nothing is appended after the condition was evaluated
+            if _implies_full(cfg, at, c[0], pol == c[1], window) and not (app_ids & cfg.reachable_from(at)):
+                g_ok = True
+                shown = shown if shown is not None else c[0]
+        ok = ok and g_ok
+    ck.ob("C10.5", add, shown if shown is not None else (tests[0].ast if tests else add.node), ok,
           "nothing is stored while the window holds fewer than n_step transitions (len(window) < n_step returns early)")
     # training loop
     tr = repo.fn("agilerl.training.train_off_policy", "train_off_policy")
@@ -454,6 +535,105 @@ def _alignment(ck: Check, repo: Repo, add: Fn, window: str) -> None:
             # same iteration: the definition dominates the use
             ok = ok and any(tcfg.dominates(d, n) for d in defs)
         ck.ob("C10.5", tr, c, ok, "the n-step batch is drawn with the indices of the 1-step batch sampled just before")
+
+
+def _thru(cfg: CFG, at: Node, e: ast.AST, negations: bool = False):
+    """Look through single-definition temporaries: (expression, node at which it is evaluated).  With `negations` the expression is
+    returned as (expression, polarity) with leading `not`s folded into the polarity."""
+    pol = True
+    for _ in range(8):
+        if negations and isinstance(e, ast.UnaryOp) and isinstance(e.op, ast.Not):
+            e, pol = e.operand, not pol
+            continue
+        if not isinstance(e, ast.Name):
+            break
+        defs = cfg.defs_reaching(at, e.id)
+        v = cfg.value_of_def(defs[0], e.id) if len(defs) == 1 and defs[0].kind == "stmt" else None
+        if v is None:
+            break
+        e, at = v, defs[0]
+    return ((e, pol), at) if negations else (e, at)
+
+
+def _cond_key(cfg: CFG, at: Node, test: ast.AST):
+    """Identity of the truth value a test reads: (key, polarity).  A local with exactly one reaching definition is the same value at
+    every test that reads it (until that definition executes again); any other expression is only equal to itself."""
+    pol = True
+    while isinstance(test, ast.UnaryOp) and isinstance(test.op, ast.Not):
+        test, pol = test.operand, not pol
+    if isinstance(test, ast.Name):
+        defs = cfg.defs_reaching(at, test.id)
+        if len(defs) == 1:
+            return ("def", test.id, defs[0].id), pol
+    return None, pol
+
+
+def _explore(cfg: CFG, store_ids: Set[int]):
+    """Path-sensitive walk from the entry: states (node, a store was executed, outcomes of the correlated conditions decided so far) and
+    the edges into the normal exit as (node, stored)."""
+    start = (cfg.entry.id, False, frozenset())
+    seen = {start}
+    into_exit = set()
+    todo = [start]
+    while todo:
+        nid, stored, dec = todo.pop()
+        n = cfg.nodes[nid]
+        outs = []
+        if n.kind == "test" and n.true_succ is not None:
+            key, pol = _cond_key(cfg, n, n.ast)
+            fsucc = [n.false_succ] if n.false_succ is not None else [s for s in n.succ if s is not n.true_succ and s.id not in n.exc_succ]
+            for branch, succs in ((True, [n.true_succ]), (False, fsucc)):
+                nd = dec
+                if key is not None:
+                    d = dict(dec)
+                    if d.get(key, branch == pol) != (branch == pol):
+                        continue  # contradicts an earlier test of the same value
+                    d[key] = branch == pol
+                    nd = frozenset(d.items())
+                outs += [(s, nd) for s in succs]
+            outs += [(s, dec) for s in n.succ if s.id in n.exc_succ]
+        else:
+            outs = [(s, dec) for s in n.succ]
+        for s, nd in outs:
+            ns = stored or (nid in store_ids and s.id not in n.exc_succ)
+            if s is cfg.exit:
+                into_exit.add((nid, ns))
+            st = (s.id, ns, frozenset(kv for kv in nd if kv[0][2] != s.id))
+            if st not in seen:
+                seen.add(st)
+                todo.append(st)
+    return seen, into_exit
+
+
+def _return_alternatives(cfg: CFG, r: Node):
+    """(value, condition key, required outcome) per value a return statement can deliver: a conditional expression is two returns."""
+    v = r.ast.value  # type: ignore[attr-defined]
+    if isinstance(v, ast.IfExp):
+        key, pol = _cond_key(cfg, r, v.test)
+        if key is None:
+            key = ("ifexp", "", -r.id - 1)  # an expression evaluated here only: both alternatives feasible, correlated with nothing
+        return [(v.body, key, pol), (v.orelse, key, not pol)]
+    return [(v, None, True)]
+
+
+def _implies_full(cfg: CFG, at: Node, c: ast.AST, pol: bool, window: str) -> bool:
+    """Does outcome `pol` of condition c imply len(self.<window>) >= self.n_step ?"""
+    if not (isinstance(c, ast.Compare) and len(c.ops) == 1):
+        return False
+    flip = {ast.Lt: ast.Gt, ast.Gt: ast.Lt, ast.LtE: ast.GtE, ast.GtE: ast.LtE, ast.Eq: ast.Eq, ast.NotEq: ast.NotEq}
+    lhs, rhs, op = c.left, c.comparators[0], type(c.ops[0])
+    if op not in flip:
+        return False
+
+    def is_len(e: ast.AST) -> bool:
+        return isinstance(e, ast.Call) and call_name(e) == "len" and len(e.args) == 1 and not e.keywords \
+            and dotted(_thru(cfg, at, e.args[0])[0]) == f"self.{window}"
+
+    if dotted(lhs) == "self.n_step" and is_len(rhs):
+        lhs, rhs, op = rhs, lhs, flip[op]
+    if not (is_len(lhs) and dotted(rhs) == "self.n_step"):
+        return False
+    return op in (ast.GtE, ast.Eq) if pol else op in (ast.Lt, ast.NotEq)
 
 
 def _sampler_roles(tr: Fn) -> Tuple[Set[str], Set[str]]:
@@ -513,4 +693,47 @@ VARIANTS += [
 VARIANTS += [
     # the n-step sampler is recognised by what it is built over, not by the local's name
     ("train-nstep-sampler-over-main-memory", _TOP, "n_step_sampler = Sampler(memory=n_step_memory)", "n_step_sampler = Sampler(memory=memory)", "fire", "C10.5"),
+]
+_LOOP_HEAD = ("        for i, transition in enumerate(list(self.n_step_buffer)[1:]):\n            # Add discounted reward\n"
+              "            reward: torch.Tensor = transition[self.reward_key]\n            n_step_reward += reward * (self.gamma ** (i + 1))\n\n"
+              "            # Update next_state and done flag\n            done: torch.Tensor = transition[self.done_key]\n")
+
+
+def _index_loop(rng: str, pos: str, exponent: str, done_pos: Optional[str] = None) -> str:
+    return (f"        for i in {rng}:\n            transition = self.n_step_buffer[{pos}]\n"
+            f"            n_step_reward += transition[self.reward_key] * (self.gamma ** {exponent})\n"
+            f"            done: torch.Tensor = {'transition' if done_pos is None else f'self.n_step_buffer[{done_pos}]'}[self.done_key]\n")
+
+
+_ADD_TAIL = ("        if len(self.n_step_buffer) < self.n_step:\n            return\n\n        # Calculate n-step return\n"
+             "        n_step_data = self._get_n_step_info()\n\n        # Add to replay buffer\n        super().add(n_step_data)\n"
+             "        return self.n_step_buffer[0]\n")
+_ADD_FROM_APPEND = "        self.n_step_buffer.append(data)\n\n        # If buffer is not full yet, don't process n-step return\n" + _ADD_TAIL
+VARIANTS += [
+    # the element's position is the index it is read with: `window[k]` under `for k in range(1, len(window))` == enumerate(list(window)[1:]) with i + 1
+    ("index-loop-ok", _RBF, _LOOP_HEAD, _index_loop("range(1, len(self.n_step_buffer))", "i", "i"), "silent", None),
+    ("index-loop-shifted-ok", _RBF, _LOOP_HEAD, _index_loop("range(len(self.n_step_buffer) - 1)", "i + 1", "(i + 1)"), "silent", None),
+    ("index-loop-exponent-off-by-one", _RBF, _LOOP_HEAD, _index_loop("range(1, len(self.n_step_buffer))", "i", "(i + 1)"), "fire", "C10.2"),
+    ("index-loop-reads-previous-element", _RBF, _LOOP_HEAD, _index_loop("range(1, len(self.n_step_buffer))", "i - 1", "i"), "fire", "C10.2"),
+    ("index-loop-includes-first-element", _RBF, _LOOP_HEAD, _index_loop("range(len(self.n_step_buffer))", "i", "i"), "fire", "C10.2"),
+    ("index-loop-done-of-previous-element", _RBF, _LOOP_HEAD, _index_loop("range(1, len(self.n_step_buffer))", "i", "i", done_pos="i - 1"), "fire", "C10."),
+    # add(): store and non-None return under the same named condition == early return on its complement
+    ("add-named-condition-ok", _RBF, _ADD_TAIL,
+     "        window_full = len(self.n_step_buffer) >= self.n_step\n        if window_full:\n            super().add(self._get_n_step_info())\n"
+     "        return self.n_step_buffer[0] if window_full else None\n", "silent", None),
+    ("add-named-condition-returns-oldest-always", _RBF, _ADD_TAIL,
+     "        window_full = len(self.n_step_buffer) >= self.n_step\n        if window_full:\n            super().add(self._get_n_step_info())\n"
+     "        return self.n_step_buffer[0]\n", "fire", "C10.5"),
+    ("add-named-condition-return-inverted", _RBF, _ADD_TAIL,
+     "        window_full = len(self.n_step_buffer) >= self.n_step\n        if window_full:\n            super().add(self._get_n_step_info())\n"
+     "        return None if window_full else self.n_step_buffer[0]\n", "fire", "C10.5"),
+    ("add-named-condition-redefined-before-return", _RBF, _ADD_TAIL,
+     "        window_full = len(self.n_step_buffer) >= self.n_step\n        if window_full:\n            super().add(self._get_n_step_info())\n"
+     "        window_full = len(self.n_step_buffer) > 0\n        return self.n_step_buffer[0] if window_full else None\n", "fire", "C10.5"),
+    ("add-condition-evaluated-before-append", _RBF, _ADD_FROM_APPEND,
+     "        window_full = len(self.n_step_buffer) >= self.n_step\n        self.n_step_buffer.append(data)\n        if window_full:\n"
+     "            super().add(self._get_n_step_info())\n        return self.n_step_buffer[0] if window_full else None\n", "fire", "C10.5"),
+    ("add-named-condition-one-short", _RBF, _ADD_TAIL,
+     "        window_full = len(self.n_step_buffer) >= self.n_step - 1\n        if window_full:\n            super().add(self._get_n_step_info())\n"
+     "        return self.n_step_buffer[0] if window_full else None\n", "fire", "C10.5"),
 ]
